@@ -8,7 +8,9 @@
        order the lock was taken; conc_progress: while a thread is unfinished some thread can move
        (nothing wedges).  atomic_serialisable / range_concurrent_serial / range_concurrent_c02
        specialise this to handler calls and to the range plugin model of C02: what concurrent
-       requests are answered satisfies C02 under every schedule.
+       requests are answered satisfies C02 under every schedule; prefix_concurrent_c08 does the same
+       for the prefix plugin (C08: no panic, disjoint across clients), alloc4_concurrent_distinct for
+       concurrent Allocate calls on the IPv4 allocator (C04).
    (2) That the code HAS this shape is computed from /repo's sources on every run: go2v skeleton
        reads, for every function touching lock-protected state (the two allocators, range.Handler4,
        prefix.Handle, the file plugin's handlers and loader) and for HandleMsg4/6 with respect to
@@ -18,11 +20,13 @@
        skeletons_all_well_locked is the computation on the current sources; every_path_well_locked,
        every_access_under_lock, no_double_release are what it means; skeletons_lock_order: a
        function holding a plugin lock only calls lock-taking functions of a higher rank
-       (allocators), so no lock cycle exists.
+       (allocators), so no lock cycle exists; skeletons_one_section / every_path_one_acquisition:
+       every analysed function takes its lock at most once per call, i.e. a handler call is one
+       critical section and a whole message is atomic with respect to other messages.
    (3) The Go memory model (a data race needs two unsynchronised accesses), goroutine scheduling
        and sync.Mutex/RWMutex/Pool are not modelled: the harness runs concurrent datagrams through
        HandleMsg4/6 with full chains under the Go race detector on every run. *)
-From Verif Require Import Base RangePlugin RangeProofs RangeTheorems RangeExamples Conc ConcProofs ConcRange ConcExamples Skel Skeleton SkelProofs SkelGen.
+From Verif Require Import Base RangePlugin RangeProofs RangeTheorems RangeExamples Conc ConcProofs ConcRange ConcPrefix ConcAlloc ConcExamples Skel Skeleton SkelProofs SkelGen.
 From Coq Require Import Permutation.
 
 Theorem conc_serialisable :
@@ -123,6 +127,130 @@ Theorem range_concurrent_c02 :
 Proof. exact (@ConcRange.range_concurrent_c02). Qed.
 Print Assumptions range_concurrent_c02.
 
+Theorem prefix_concurrent_serial :
+  forall (pip : bytes) (L P : N) (st0 : PrefixPlugin.pstate),
+  BaseProofs.wf_ip16 pip /\
+  Net.to4 pip = None /\
+  L <= P /\ P <= 128 /\ P - L < 64 /\ IpcalcProofs.v pip mod IpcalcProofs.Bsz L = 0 ->
+  forall prev msgs : list PrefixTheorems.pmsg,
+  Forall PrefixTheorems.wf_pmsg prev ->
+  Forall PrefixTheorems.wf_pmsg msgs ->
+  forall sched : list nat,
+  all_done PrefixPlugin.pstate (option PrefixPlugin.pd_out) (option PrefixPlugin.pd_out)
+  (map (aop PrefixPlugin.pstate PrefixTheorems.pmsg PrefixPlugin.pd_out pstep) msgs)
+  (run PrefixPlugin.pstate (option PrefixPlugin.pd_out) (option PrefixPlugin.pd_out)
+  (map (aop PrefixPlugin.pstate PrefixTheorems.pmsg PrefixPlugin.pd_out pstep) msgs)
+  (fst (PrefixTheorems.prun st0 prev)) sched) ->
+  exists sigma : list nat,
+  Permutation.Permutation sigma (seq 0 (length msgs)) /\
+  (let hist := prev ++ pick PrefixTheorems.pmsg msgs sigma in
+  let c :=
+  run PrefixPlugin.pstate (option PrefixPlugin.pd_out) (option PrefixPlugin.pd_out)
+  (map (aop PrefixPlugin.pstate PrefixTheorems.pmsg PrefixPlugin.pd_out pstep) msgs)
+  (fst (PrefixTheorems.prun st0 prev)) sched in
+  Forall PrefixTheorems.wf_pmsg hist /\
+  sh PrefixPlugin.pstate (option PrefixPlugin.pd_out) (option PrefixPlugin.pd_out) c =
+  fst (PrefixTheorems.prun st0 hist) /\
+  lock PrefixPlugin.pstate (option PrefixPlugin.pd_out) (option PrefixPlugin.pd_out) c =
+  None /\
+  (forall (t : nat) (r : option PrefixPlugin.pd_out),
+  nth_error
+  (thr PrefixPlugin.pstate (option PrefixPlugin.pd_out) (option PrefixPlugin.pd_out) c)
+  t =
+  Some
+  (Done PrefixPlugin.pstate (option PrefixPlugin.pd_out) (option PrefixPlugin.pd_out) r) ->
+  exists k : nat,
+  nth_error sigma k = Some t /\
+  nth_error hist (length prev + k) = nth_error msgs t /\
+  r = nth_error (snd (PrefixTheorems.prun st0 hist)) (length prev + k) /\ r <> None)).
+Proof. exact (@ConcPrefix.prefix_concurrent_serial). Qed.
+Print Assumptions prefix_concurrent_serial.
+
+Theorem prefix_concurrent_c08 :
+  forall (pip : bytes) (L P : N) (st0 : PrefixPlugin.pstate),
+  BaseProofs.wf_ip16 pip /\
+  Net.to4 pip = None /\
+  L <= P /\ P <= 128 /\ P - L < 64 /\ IpcalcProofs.v pip mod IpcalcProofs.Bsz L = 0 ->
+  PrefixPlugin.prefix_setup pip (Net.cidr_bytes 16 L) (Z.of_N P) = Ok st0 ->
+  forall prev msgs : list PrefixTheorems.pmsg,
+  Forall PrefixTheorems.wf_pmsg prev ->
+  Forall PrefixTheorems.wf_pmsg msgs ->
+  forall sched : list nat,
+  all_done PrefixPlugin.pstate (option PrefixPlugin.pd_out) (option PrefixPlugin.pd_out)
+  (map (aop PrefixPlugin.pstate PrefixTheorems.pmsg PrefixPlugin.pd_out pstep) msgs)
+  (run PrefixPlugin.pstate (option PrefixPlugin.pd_out) (option PrefixPlugin.pd_out)
+  (map (aop PrefixPlugin.pstate PrefixTheorems.pmsg PrefixPlugin.pd_out pstep) msgs)
+  (fst (PrefixTheorems.prun st0 prev)) sched) ->
+  let c :=
+  run PrefixPlugin.pstate (option PrefixPlugin.pd_out) (option PrefixPlugin.pd_out)
+  (map (aop PrefixPlugin.pstate PrefixTheorems.pmsg PrefixPlugin.pd_out pstep) msgs)
+  (fst (PrefixTheorems.prun st0 prev)) sched in
+  (forall t : nat,
+  nth_error
+  (thr PrefixPlugin.pstate (option PrefixPlugin.pd_out) (option PrefixPlugin.pd_out) c) t <>
+  Some
+  (Done PrefixPlugin.pstate (option PrefixPlugin.pd_out) (option PrefixPlugin.pd_out)
+  (Some PrefixPlugin.PPanic))) /\
+  (forall (t1 t2 : nat) (n1 : Z) (c1 : bytes) (p1 : list (bytes * list PrefixPlugin.hint))
+  (n2 : Z) (c2 : bytes) (p2 : list (bytes * list PrefixPlugin.hint))
+  (o1 o2 : list (bytes * list PrefixPlugin.lease)) (l1 l2 : PrefixPlugin.lease),
+  nth_error msgs t1 = Some (PrefixTheorems.PMsg n1 (Some c1) p1) ->
+  nth_error msgs t2 = Some (PrefixTheorems.PMsg n2 (Some c2) p2) ->
+  nth_error
+  (thr PrefixPlugin.pstate (option PrefixPlugin.pd_out) (option PrefixPlugin.pd_out) c) t1 =
+  Some
+  (Done PrefixPlugin.pstate (option PrefixPlugin.pd_out) (option PrefixPlugin.pd_out)
+  (Some (PrefixPlugin.PResp o1))) ->
+  nth_error
+  (thr PrefixPlugin.pstate (option PrefixPlugin.pd_out) (option PrefixPlugin.pd_out) c) t2 =
+  Some
+  (Done PrefixPlugin.pstate (option PrefixPlugin.pd_out) (option PrefixPlugin.pd_out)
+  (Some (PrefixPlugin.PResp o2))) ->
+  In l1 (flat_map snd o1) ->
+  In l2 (flat_map snd o2) ->
+  c1 <> c2 ->
+  IpcalcProofs.v (PrefixPlugin.ls_ip l1) + IpcalcProofs.Bsz P <=
+  IpcalcProofs.v (PrefixPlugin.ls_ip l2) \/
+  IpcalcProofs.v (PrefixPlugin.ls_ip l2) + IpcalcProofs.Bsz P <=
+  IpcalcProofs.v (PrefixPlugin.ls_ip l1)).
+Proof. exact (@ConcPrefix.prefix_concurrent_c08). Qed.
+Print Assumptions prefix_concurrent_c08.
+
+Theorem alloc4_concurrent_distinct :
+  forall (s e : bytes) (a0 : Alloc.a4),
+  wf_bytes s ->
+  wf_bytes e ->
+  Alloc.new4 s e = Ok a0 ->
+  forall prev calls : list AllocRun.aop,
+  Forall
+  (fun o : AllocRun.aop =>
+  match o with
+  | AllocRun.OAlloc _ _ => True
+  | AllocRun.OFree _ _ => False
+  end) calls ->
+  forall sched : list nat,
+  all_done Alloc.a4 (option AllocRun.aout) (option AllocRun.aout)
+  (map (aop Alloc.a4 AllocRun.aop AllocRun.aout AllocRun.step4) calls)
+  (run Alloc.a4 (option AllocRun.aout) (option AllocRun.aout)
+  (map (aop Alloc.a4 AllocRun.aop AllocRun.aout AllocRun.step4) calls)
+  (fst (srun Alloc.a4 AllocRun.aop AllocRun.aout AllocRun.step4 a0 prev)) sched) ->
+  let c :=
+  run Alloc.a4 (option AllocRun.aout) (option AllocRun.aout)
+  (map (aop Alloc.a4 AllocRun.aop AllocRun.aout AllocRun.step4) calls)
+  (fst (srun Alloc.a4 AllocRun.aop AllocRun.aout AllocRun.step4 a0 prev)) sched in
+  forall (t1 t2 : nat) (ip m1 m2 : bytes),
+  t1 <> t2 ->
+  nth_error (thr Alloc.a4 (option AllocRun.aout) (option AllocRun.aout) c) t1 =
+  Some
+  (Done Alloc.a4 (option AllocRun.aout) (option AllocRun.aout)
+  (Some (AllocRun.RAlloc (Ok (ip, m1))))) ->
+  nth_error (thr Alloc.a4 (option AllocRun.aout) (option AllocRun.aout) c) t2 =
+  Some
+  (Done Alloc.a4 (option AllocRun.aout) (option AllocRun.aout)
+  (Some (AllocRun.RAlloc (Ok (ip, m2))))) -> False.
+Proof. exact (@ConcAlloc.alloc4_concurrent_distinct). Qed.
+Print Assumptions alloc4_concurrent_distinct.
+
 Theorem checker_sound :
   forall (s : sk) (tr : list ev) (o : outcome),
   exec s tr o ->
@@ -198,6 +326,25 @@ Theorem no_double_release :
   exists s : lst, tr_run (init_of f) pre = Some s /\ held s = Some w /\ deferred s = false.
 Proof. exact (@SkelGen.no_double_release). Qed.
 Print Assumptions no_double_release.
+
+Theorem acquisitions_sound :
+  forall (s : sk) (tr : list ev) (o : outcome),
+  exec s tr o ->
+  forall fuel : nat, (acq fuel s <= 1)%nat -> (count_locks tr <= acq fuel s)%nat.
+Proof. exact (@SkelProofs.acq_sound). Qed.
+Print Assumptions acquisitions_sound.
+
+Theorem skeletons_one_section :
+  forallb one_section all_skeletons = true.
+Proof. exact (@SkelGen.skeletons_one_section). Qed.
+Print Assumptions skeletons_one_section.
+
+Theorem every_path_one_acquisition :
+  forall f : fskel,
+  In f all_skeletons ->
+  forall (tr : list ev) (o : outcome), exec (fs_body f) tr o -> (count_locks tr <= 1)%nat.
+Proof. exact (@SkelGen.every_path_one_acquisition). Qed.
+Print Assumptions every_path_one_acquisition.
 
 
 (* Non-vacuity (proofs/ConcExamples.v): three goroutines - two of them the same client - send a
